@@ -18,7 +18,7 @@ pub enum MK { // mark kinds
 pub struct Mark { pub off: usize, pub len: usize, pub kind: MK }
 #[derive(Debug, Clone)]
 pub struct Deletable { pub off: usize, pub len: usize, pub err: &'static str, pub tok: &'static str, pub at_mark: Option<usize> /* index into `anchors` giving expected position */ }
-pub struct G<'a> { pub u: Src<'a>, pub out: String, pub marks: Vec<Mark>, pub dels: Vec<Deletable>, pub anchors: Vec<usize>, pub depth: usize, pub feats: Vec<&'static str>, pub in_macro: usize, pub str_regions: Vec<(usize, usize)>, pub last_int: bool, pub max_depth: usize, pub open_parens: usize, pub open_calls: usize, pub trunc_points: Vec<(usize, usize, usize)> }
+pub struct G<'a> { pub u: Src<'a>, pub out: String, pub marks: Vec<Mark>, pub dels: Vec<Deletable>, pub anchors: Vec<usize>, pub depth: usize, pub feats: Vec<&'static str>, pub in_macro: usize, pub str_regions: Vec<(usize, usize)>, pub last_int: bool, pub max_depth: usize, pub open_parens: usize, pub open_calls: usize, pub force_nonword: bool, pub trunc_points: Vec<(usize, usize, usize)> }
 
 const IDENTS: &[&str] = &["a", "b", "x1", "_v", "abc", "var_2", "tbl", "col", "é1", "mylib", "Z"];
 const MNAMES: &[&str] = &["m", "mymac", "util_1", "_m", "doit", "M2"];
@@ -30,7 +30,7 @@ const OPEN_SYM: &[&str] = &["=", "+", "-", "/", "<", ">", "<=", ">=", "^=", "~="
 const WORDS: &[&str] = &["a", "abc", "x1", "some", "text", "v_1", "é", "data", "q2"];
 
 impl<'a> G<'a> {
-    pub fn new(data: &'a [u8]) -> G<'a> { G { u: Src::new(data), out: String::new(), marks: vec![], dels: vec![], anchors: vec![], depth: 0, feats: vec![], in_macro: 0, str_regions: vec![], last_int: false, max_depth: 0, open_parens: 0, open_calls: 0, trunc_points: vec![] } }
+    pub fn new(data: &'a [u8]) -> G<'a> { G { u: Src::new(data), out: String::new(), marks: vec![], dels: vec![], anchors: vec![], depth: 0, feats: vec![], in_macro: 0, str_regions: vec![], last_int: false, max_depth: 0, open_parens: 0, open_calls: 0, force_nonword: false, trunc_points: vec![] } }
     fn d_inc(&mut self) { self.depth += 1; if self.depth > self.max_depth { self.max_depth = self.depth; } }
     fn p(&mut self, s: &str) { self.out.push_str(s); }
     // a macro keyword in a random letter case (keywords are case-insensitive)
@@ -57,7 +57,7 @@ impl<'a> G<'a> {
     fn anchor(&mut self) -> usize { self.anchors.push(self.out.len()); self.anchors.len() - 1 }
     // insignificant whitespace/comments (hidden)
     fn ows(&mut self) { match self.u.below(9) { 0 | 1 | 2 | 3 => {} 4 => self.mark(" ", MK::HiddenWs), 5 => self.mark("\n", MK::HiddenWs), 6 => self.mark("  \t", MK::HiddenWs), 7 => { self.uws(); } _ => { if self.u.coin(1, 4) { self.mark("/*a*//*b,(*/", MK::HiddenWs); } else if self.u.coin(1, 4) { self.mark("/*a*/ /*b*/\n", MK::HiddenWs); } else { self.mark("/*c,=;)*/", MK::HiddenWs); } self.feat("comment-in-gap"); } } }
-    fn rws(&mut self) { match self.u.below(9) { 0 | 1 | 2 | 3 => self.mark(" ", MK::HiddenWs), 4 | 5 => self.mark("\n", MK::HiddenWs), 6 => self.uws(), _ => self.mark(" /*c*/ ", MK::HiddenWs) } }
+    fn rws(&mut self) { match self.u.below(9) { 0 | 1 | 2 | 3 => self.mark(" ", MK::HiddenWs), 4 | 5 => self.mark("\n", MK::HiddenWs), 6 => self.uws(), 7 => self.mark("/*c*/", MK::HiddenWs), _ => self.mark(" /*c*/ ", MK::HiddenWs) } }
     // whitespace that is not ASCII (the lexer's whitespace is Unicode White_Space)
     fn uws(&mut self) { self.feat("non-ascii-whitespace-gap"); let w = self.pick(&["\u{a0}", "\u{2003}", "\u{b}", "\u{3000} ", "\u{85}", " \u{2028}", "\u{c}", "\u{1680}\t"]); self.mark(w, MK::HiddenWs); }
     fn plain_ws(&mut self) { let w = match self.u.below(4) { 0 | 1 => " ", 2 => "\n", _ => "  " }; self.p(w); }
@@ -300,7 +300,13 @@ impl<'a> G<'a> {
     }
     fn ows_after_expr(&mut self) { if self.u.coin(1, 4) { self.mark(" ", MK::HiddenWs); } }
     fn gap_after_expr(&mut self) { self.ows_after_expr(); }
-    fn rgap_after_expr(&mut self) { let w = self.pick(&[" ", "\n", "  "]); self.mark(w, MK::HiddenWs); }
+    // the gap between the end of an expression and the %then / %to / %by that ends it: optional after a character that cannot
+    // continue a name
+    fn rgap_after_expr(&mut self) { if self.out.ends_with([')', '"', '\'']) && self.u.coin(1, 3) { self.feat("keyword-glued-to-expression-end"); return; } let w = self.pick(&[" ", "\n", "  "]); self.mark(w, MK::HiddenWs); }
+    // the gap after %if / %to / %by: may be left out when the expression starts with a character that cannot continue a name
+    fn kgap(&mut self) { if self.u.coin(1, 5) { self.feat("expression-glued-to-keyword"); self.force_nonword = true; } else { self.rws(); } }
+    // the gap after %then / %else before a statement that starts with '%'
+    fn tgap(&mut self) { if self.u.coin(1, 4) { self.feat("statement-glued-to-then-else"); } else { self.rws(); } }
     fn simple_value(&mut self) { match self.u.below(5) { 0 => { let w = self.pick(WORDS); self.p(w); } 1 => self.mvar(true), 2 => { let w = self.pick(WORDS); self.p(w); self.p(" "); let w = self.pick(WORDS); self.p(w); } 3 => { self.p("a"); self.gopen(); self.p("b"); self.tp(); self.mark(",", MK::Masked); self.p("c"); self.tp(); self.gclose(); self.p("d"); self.tp(); } _ => { self.mvar(true); let w = self.pick(WORDS); self.p(w); } } }
     fn str_call(&mut self) {
         self.feat("str-call");
@@ -349,7 +355,8 @@ impl<'a> G<'a> {
         for i in 0..n {
             if i > 0 { if self.u.coin(1, 2) { let w = self.pick(&[" ", "\n", "  "]); self.mark(w, MK::HiddenWs); } self.eval_op(); self.ows(); }
             // a mnemonic operator written without a following blank: what follows must not start with a name character
-            let glued = i > 0 && self.out.ends_with(|c: char| c.is_alphanumeric());
+            let glued = (i > 0 || self.force_nonword) && self.out.ends_with(|c: char| c.is_alphanumeric());
+            self.force_nonword = false;
             if glued { self.feat("mnemonic-glued-right"); }
             if self.u.coin(1, 8) { let o = if glued { self.pick(&["-", "+", "^", "~"]) } else { self.pick(&["-", "+", "not ", "^", "~", "NOT "]) }; let t = match o { "-" => "MINUS", "+" => "PLUS", "not " | "NOT " => "KwNOT", _ => "NOT" }; let l = o.trim_end().len(); let off = self.out.len(); self.p(o); self.marks.push(Mark { off, len: l, kind: MK::Op(t) }); }
             self.tp();
@@ -425,18 +432,18 @@ impl<'a> G<'a> {
     }
     fn datalines_block(&mut self) { if self.in_macro > 0 { return self.open_stmt(); } self.feat("datalines"); if !self.out.trim_end_matches(|c: char| c.is_whitespace()).ends_with(';') && !self.out.is_empty() { self.p(";"); } match self.u.below(4) { 0 => self.p("datalines;\n1 2 3\nabc def\n;"), 1 => self.p("cards ;\n;"), 2 => self.p("DATALINES4;\na;b;;;c\n'x\n;;;;"), _ => self.p("lines;\n%notmacro &x /* not comment\n;") } }
     fn if_stmt(&mut self) {
-        self.feat("if"); self.pk("%if"); self.rws(); self.eval_expr(false, false); self.rgap_after_expr(); self.pk("%then"); self.rws();
-        if self.u.coin(1, 2) { self.do_block(); } else { self.simple_macro_stmt(); }
-        if self.u.coin(1, 3) { self.feat("else"); self.plain_ws(); self.pk("%else"); self.rws(); match self.u.below(5) { 0 | 1 => self.do_block(), 2 if self.depth < 4 => { self.feat("else-if"); self.d_inc(); self.if_stmt(); self.depth -= 1; } _ => self.simple_macro_stmt() } }
+        self.feat("if"); self.pk("%if"); self.kgap(); self.eval_expr(false, false); self.rgap_after_expr(); self.pk("%then");
+        match self.u.below(6) { 0 | 1 | 2 => { self.tgap(); self.do_block(); } 3 => { self.tgap(); self.let_stmt(); } 4 => { self.tgap(); self.put_stmt(); } _ => { self.rws(); self.simple_macro_stmt(); } }
+        if self.u.coin(1, 3) { self.feat("else"); if self.u.coin(3, 4) { self.plain_ws(); } self.pk("%else"); match self.u.below(6) { 0 | 1 => { self.tgap(); self.do_block(); } 2 if self.depth < 4 => { self.feat("else-if"); self.tgap(); self.d_inc(); self.if_stmt(); self.depth -= 1; } 3 => { self.tgap(); self.let_stmt(); } _ => { self.rws(); self.simple_macro_stmt(); } } }
     }
     fn simple_macro_stmt(&mut self) { match self.u.below(5) { 0 => self.let_stmt(), 1 => self.put_stmt(), 2 => self.call_stmt(), 3 => { self.feat("builtin-as-statement"); self.d_inc(); self.builtin_call(0); self.depth -= 1; self.ows_no_paren(); self.p(";"); } _ => self.open_stmt() } }
     fn do_block(&mut self) {
         self.feat("do"); self.pk("%do");
         match self.u.below(5) {
             0 | 1 => { self.ows(); self.mark(";", MK::Delim("SEMI", false)); }
-            2 => { self.feat("do-iter"); self.rws(); self.name_expr(); self.ows(); self.del_mark("=", "ASSIGN", "MissingExpectedAssign", false); self.ows(); self.eval_expr(false, false); self.rgap_after_expr(); self.pk("%to"); self.rws(); self.eval_expr(false, false); if self.u.coin(1, 2) { self.rgap_after_expr(); self.pk("%by"); self.rws(); self.eval_expr(false, false); } self.gap_after_expr(); self.mark(";", MK::Delim("SEMI", false)); }
-            3 => { self.feat("do-while"); self.rws(); self.pk("%while"); self.ows(); self.del_mark("(", "LPAREN", "MissingExpectedLParen", false); self.ows(); self.eval_expr(false, false); self.ows_after_expr(); self.mark(")", MK::Delim("RPAREN", false)); self.ows(); self.del_mark(";", "SEMI", "MissingExpectedSemiOrEOF", false); }
-            _ => { self.feat("do-until"); self.rws(); self.pk("%until"); self.ows(); self.del_mark("(", "LPAREN", "MissingExpectedLParen", false); self.ows(); self.eval_expr(false, false); self.ows_after_expr(); self.mark(")", MK::Delim("RPAREN", false)); self.ows(); self.del_mark(";", "SEMI", "MissingExpectedSemiOrEOF", false); }
+            2 => { self.feat("do-iter"); self.rws(); self.name_expr(); self.ows(); self.del_mark("=", "ASSIGN", "MissingExpectedAssign", false); self.ows(); self.eval_expr(false, false); self.rgap_after_expr(); self.pk("%to"); self.kgap(); self.eval_expr(false, false); if self.u.coin(1, 2) { self.rgap_after_expr(); self.pk("%by"); self.kgap(); self.eval_expr(false, false); } self.gap_after_expr(); self.mark(";", MK::Delim("SEMI", false)); }
+            3 => { self.feat("do-while"); self.tgap(); self.pk("%while"); self.ows(); self.del_mark("(", "LPAREN", "MissingExpectedLParen", false); self.ows(); self.eval_expr(false, false); self.ows_after_expr(); self.mark(")", MK::Delim("RPAREN", false)); self.ows(); self.del_mark(";", "SEMI", "MissingExpectedSemiOrEOF", false); }
+            _ => { self.feat("do-until"); self.tgap(); self.pk("%until"); self.ows(); self.del_mark("(", "LPAREN", "MissingExpectedLParen", false); self.ows(); self.eval_expr(false, false); self.ows_after_expr(); self.mark(")", MK::Delim("RPAREN", false)); self.ows(); self.del_mark(";", "SEMI", "MissingExpectedSemiOrEOF", false); }
         }
         self.body();
         self.pk("%end"); self.ows(); self.del_mark(";", "SEMI", "MissingExpectedSemiOrEOF", false);
